@@ -223,6 +223,58 @@ pub fn check_step(ctx: &mut Ctx, s: &Step) -> Result<(), Violation> {
             }
         }
     }
+    // siblings produced by the deprecated editing API from the board itself (another way of
+    // obtaining them): a man retyped / recoloured / removed, a man added
+    #[allow(deprecated)]
+    if base.ep.is_none() && s.board.en_passant().is_none() {
+        let mut squares: Vec<Sq> = (0..64u8).filter(|&q| matches!(p.at(q), Some((_, k)) if k != Kind::K)).collect();
+        let keep = 6.min(squares.len());
+        let start = if squares.is_empty() { 0 } else { (pf >> 17) as usize % squares.len() };
+        squares.rotate_left(start);
+        squares.truncate(keep);
+        if !empties.is_empty() {
+            squares.push(empties[(pf >> 29) as usize % empties.len()]);
+        }
+        for (j, q) in squares.into_iter().enumerate() {
+            let mut edits: Vec<(Option<(Col, Kind)>, Option<chess::Board>, &'static str)> = vec![];
+            if let Some((c, k)) = p.at(q) {
+                let nk = [Kind::N, Kind::B, Kind::R, Kind::Q][(pf.rotate_right(7 + 2 * j as u32) % 4) as usize];
+                if nk != k {
+                    edits.push((Some((c, nk)), s.board.set_piece(bridge::kind(nk), bridge::col(c), bridge::sq(q)), "sibling:set_piece-retyped"));
+                }
+                edits.push((Some((c.other(), k)), s.board.set_piece(bridge::kind(k), bridge::col(c.other()), bridge::sq(q)), "sibling:set_piece-recoloured"));
+                edits.push((None, s.board.clear_square(bridge::sq(q)), "sibling:clear_square"));
+            } else {
+                let c = if pf.rotate_right(3 + j as u32) & 1 == 0 { Col::W } else { Col::B };
+                edits.push((Some((c, Kind::N)), s.board.set_piece(bridge::kind(Kind::N), bridge::col(c), bridge::sq(q)), "sibling:set_piece-added"));
+            }
+            for (content, board, kind) in edits {
+                let r = match board {
+                    Some(r) => r,
+                    None => continue,
+                };
+                if content == p.at(q) {
+                    continue;
+                }
+                let mut x = base.clone();
+                x.board[q as usize] = content;
+                ctx.evals_add(1);
+                ctx.class(kind);
+                if x.validate().is_ok() {
+                    note(ctx, r.get_hash(), &x);
+                }
+                for (h0, how) in hs {
+                    if r.get_hash() == *h0 {
+                        ctx.fail(
+                            &format!("hash:collision-{}", kind),
+                            format!("the board that {} makes of this position (square {}) has the same hash {:#018x} as the position itself (obtained through {})", kind, sq_name(q), h0, how),
+                            s.case_with(json!({"sibling": x.fen(), "component": kind, "square": sq_name(q)})),
+                        )?;
+                    }
+                }
+            }
+        }
+    }
     // side to move (en-passant state cannot be kept when the side changes)
     if base.ep.is_none() {
         let mut x = base.clone();
@@ -440,7 +492,7 @@ pub fn run(cfg: &Cfg) -> i32 {
     engine::finish(
         report,
         EvidenceSpec {
-            rule: "cases = every position on golden and generated histories, and every placement of two further men on a few K v K bases (dense families in which positions differ pairwise in up to four piece-square keys), goes into a global map hash -> position identity; one position in four additionally gets all its single-component siblings built through BoardBuilder: each non-king man removed / retyped / recoloured / moved to two empty squares, a man added on a few empty squares and on the castling squares of both back ranks, side to move flipped (also via null_move), every proper subset of the castling rights held, en-passant state absent vs present on each possible file. the position's own hash is taken through every construction path (history, make_move_new, in-place make_move, FEN) and each of these values is compared with every sibling. evaluations = positions + siblings compared. Non-trivial = a sibling differing in castling rights, en-passant file or side to move, or a global map of >= 100000 distinct positions; distinct = fingerprints of (position, sibling).".into(),
+            rule: "cases = every position on golden and generated histories, and every placement of two further men on a few K v K bases (dense families in which positions differ pairwise in up to four piece-square keys), goes into a global map hash -> position identity; one position in four additionally gets all its single-component siblings built through BoardBuilder: each non-king man removed / retyped / recoloured / moved to two empty squares, a man added on a few empty squares and on the castling squares of both back ranks (also as produced from the board itself by set_piece / clear_square), side to move flipped (also via null_move), every proper subset of the castling rights held, en-passant state absent vs present on each possible file. the position's own hash is taken through every construction path (history, make_move_new, in-place make_move, FEN) and each of these values is compared with every sibling. evaluations = positions + siblings compared. Non-trivial = a sibling differing in castling rights, en-passant file or side to move, or a global map of >= 100000 distinct positions; distinct = fingerprints of (position, sibling).".into(),
             assumptions: vec![
                 "the global map holds at most 6.4e7 distinct positions, so the expected number of chance collisions is N^2/2^65 <= 1.1e-4; any collision is reported (false-alarm probability per run about 1e-4)".into(),
                 "says nothing about adversarially constructed collisions".into(),
